@@ -3,6 +3,7 @@
 package dht
 
 import (
+	record "github.com/libp2p/go-libp2p-record"
 	"context"
 	"errors"
 	"fmt"
@@ -92,6 +93,17 @@ func c05DsKey(key string) ds.Key {
 	return ds.NewKey("/v/" + base32.RawStdEncoding.EncodeToString([]byte(key)))
 }
 
+// c05KeyBound: like the /ipns and /pk validators, this one is bound to the key — a record is only valid under a key of
+// the harness's own form (never under, say, the datastore key it is filed under).
+type c05KeyBound struct{ vValidator }
+
+func (v c05KeyBound) Validate(key string, value []byte) error {
+	if c05KeyID(key) < 0 {
+		return fmt.Errorf("record validated under a foreign key %q", key)
+	}
+	return v.vValidator.Validate(key, value)
+}
+
 func c05KeyID(key string) int {
 	var k int
 	var c byte
@@ -157,7 +169,7 @@ func runC05(c *vu.Case) {
 	g := &gateDS{Batching: base, arrive: map[int]chan *vsAccess{}}
 	h := simnet.NewHost(vPeer(1000000))
 	defer h.Close()
-	d, err := New(h, ProtocolPrefix("/verif"), DisableAutoRefresh(), Validator(vNSValidator()), Datastore(g), MaxRecordAge(maxAge),
+	d, err := New(h, ProtocolPrefix("/verif"), DisableAutoRefresh(), Validator(record.NamespacedValidator{"v": c05KeyBound{}}), Datastore(g), MaxRecordAge(maxAge),
 		Mode(ModeServer), disableFixLowPeersRoutine(c.T))
 	if err != nil {
 		panic(err)
